@@ -103,6 +103,30 @@ def run(ctx, model_ok, deep=False):
                         V("falsifier:cli-exit", "jwt-verify given %d failing and %d good tokens, one of them %d characters long (%s), exited with status %d" % (
                             nbad, len(toks) - nbad, len(lgood), mode, rc), ["# jwt-verify -q -k oct.json " + ("- < tokens" if mode != "args" else "<tokens>"),
                                                                           "# token lengths: " + " ".join(str(len(t)) for t in toks)])
+        # ---------------- neighbours: each token is judged on its own text, whatever came before it ------
+        # consecutive tokens that agree in their first k characters and differ afterwards (a damaged signature tail,
+        # a changed character right after position k), in every order, k on both sides of the usual buffer sizes
+        for k in S.sizes([100, 200, 300, 600, 700] + S.STD_SIZES + ([8191, 8192, 8193] if tier == "thorough" else []), lo=100, hi=20000):
+            padn = max(0, ((k + 45 - 43 - 21) * 3 // 4) - 24)
+            m3 = S.seg({"alg": "HS256"}) + b"." + S.seg({"sub": "cli", "pad": "y" * padn})
+            g = (m3 + b"." + pool.sign("oct32", "HS256", m3)).decode()
+            if len(g) <= k + 2:
+                continue
+            flip = lambda t, i: t[:i] + ("A" if t[i] != "A" else "B") + t[i + 1:]
+            b_tail, b_mid = flip(g, len(g) - 2), flip(g, k + 1)
+            for toks, nbad in (([g, b_tail], 1), ([b_tail, g], 1), ([g, b_mid, g], 1), ([b_mid, b_tail, g, g, b_tail], 3), ([g, g, b_tail, b_tail, g], 2)):
+                for mode in ("args", "stdin"):
+                    if mode == "args":
+                        rc, out, err = tool(ctx, "jwt-verify", ["-q", "-k", kf] + toks)
+                    else:
+                        rc, out, err = tool(ctx, "jwt-verify", ["-q", "-k", kf, "-"], stdin=("\n".join(toks) + "\n").encode())
+                    ev += 1
+                    distinct.add(("neigh", k > 500, nbad, rc, mode))
+                    want = ctx.run_driver(["clistatus %d" % nbad])[0] if model_ok else None
+                    if ((rc == 0) != (nbad == 0) or (want is not None and str(rc) != want)) and len(ctx.violations) < 6:
+                        V("falsifier:cli-exit", "jwt-verify given %d tokens of %d characters that agree in their first %d characters, %d of them damaged further on (%s), exited with status %d" % (
+                            len(toks), len(g), k + 1, nbad, mode, rc), ["# jwt-verify -q -k oct.json " + ("- < tokens" if mode != "args" else "<tokens>"),
+                                                                        "# order (g = genuine, b = damaged after character %d): %s" % (k + 1, " ".join("g" if t == g else "b" for t in toks))] + toks)
         # ---------------- option spellings ----------------------------------------------------------
         kf_noalg = os.path.join(d, "oct_noalg.json")
         json.dump(oct_.jwk(), open(kf_noalg, "w"))
